@@ -5,7 +5,11 @@ PKG_ALIASES = {"al": "gv.test/fix/alpha", "ot": "example.com/other"}
 CTORS = ["NewA", "NewB", "MakeC", "al.NewA", "al.Build", "ot.Provide", "\"example.com/lib\".New"]
 LITS = [0, 1, -7, 42, True, False, None, 1.5, "", "plain", "two words", "1", "true", "é\"q\"\\", cfggen.Raw("18446744073709551615"), cfggen.Raw("-9223372036854775808"),
         cfggen.Raw("3.141592653589793"), cfggen.Raw("16777217.0"), cfggen.Raw("1e300"), cfggen.Raw("0.1"), cfggen.Raw("1e-7"), cfggen.Raw("-2.2250738585072014e-308"), cfggen.Raw("-0.0"), cfggen.Raw(".inf"), cfggen.Raw("-.inf"), cfggen.Raw(".nan"),
-        "$gontainer ", " $gontainer", "$gontainerX", " @s0", "!valueX", "nil", "1.5", "false", "42", "@", "!tagged", "!value"]
+        # huge magnitudes that need all their digits (written in the exponent form by the tool), integers beyond uint64 (decoded as floats)
+        cfggen.Raw("1.7976931348623157e308"), cfggen.Raw("-9.87654321e+25"), cfggen.Raw("1.2345678901234567e19"), cfggen.Raw("18446744073709551616"), cfggen.Raw("123456789012345678901234567890"),
+        "$gontainer ", " $gontainer", "$gontainerX", " @s0", "!valueX", "nil", "1.5", "false", "42", "!tagged", "!value"]
+# plain text as a PARAMETER value only (as an argument the tool rejects it as an invalid service reference)
+PARAM_ONLY_LITS = ["@", "@s0", "!value X", "$gontainer"]
 
 
 class RtGen:
@@ -14,7 +18,7 @@ class RtGen:
         self.w = dict({"todo": 0.08, "failing": 0.05, "scope": 0.4, "tags": 0.5, "decorators": 0.5, "calls": 0.4, "fields": 0.4, "getter": 0.4, "value_services": 0.25}, **(weights or {}))
         self.ns = n_services if n_services is not None else r.randint(2, 6)
         self.np = n_params if n_params is not None else r.randint(1, 5)
-        self.tags = ["t%d" % i for i in range(r.randint(0, 3))]
+        self.tags = ["t%d" % i for i in range(r.randint(int(self.w.get("min_tags", 0)), 3))]
         self.carriers = {t: [] for t in self.tags}
 
     def pattern(self, lower_params):
@@ -67,7 +71,7 @@ class RtGen:
             elif k < 0.55:
                 params[n] = self.pattern(names)
             else:
-                params[n] = r.choice(LITS)
+                params[n] = r.choice(LITS + PARAM_ONLY_LITS)
             names.append(n)
         cfg["parameters"] = params
         svcs = {}
